@@ -72,7 +72,10 @@ def param_values(bd, rng, name, key):
     t = bd[2] if len(bd) > 2 else "cc"
     span = (hi - lo) if np.isfinite(hi) else 4.0
     vals = []
-    vals.append(("lo", lo if t[0] == "c" else lo + 1e-3 * span))
+    if key == "alpha":
+        vals.append(("lo", 0.05))      # open bound 0; below ~0.002*hurst the code's recursion depth is exceeded (known finding)
+    else:
+        vals.append(("lo", lo if t[0] == "c" else lo + 1e-3 * span))
     if np.isfinite(hi):
         vals.append(("hi", hi if t[1] == "c" else hi - 1e-3 * span))
     vals.append(("in", lo + float(rng.uniform(0.02, 0.98)) * span))
@@ -256,17 +259,18 @@ def run(ctx, only=None):
         ctx.sample(dict(correspondence_mismatch=what, case=case), limit=12)
         C.log("[C02] correspondence mismatch: %s %s" % (what, json.dumps(case, default=str)[:300]))
 
+    import time
     try:
-        if drv is not None and only in (None, "corr"):
-            correspondence(ctx, gs, gsp, check_arg_in_bounds, drv, rng, thorough, corr_fail)
-        if only in (None, "cor"):
-            probe_cor(ctx, gs, rng, thorough)
-        if only in (None, "spectrum"):
-            probe_spectrum(ctx, gs, rng, thorough)
-        if only in (None, "eig"):
-            probe_eig(ctx, gs, rng, thorough)
-        if only in (None, "sphere"):
-            probe_sphere(ctx, gs, rng, thorough)
+        stages = [("corr", lambda: correspondence(ctx, gs, gsp, check_arg_in_bounds, drv, rng, thorough, corr_fail) if drv is not None else None),
+                  ("cor", lambda: probe_cor(ctx, gs, rng, thorough)),
+                  ("spectrum", lambda: probe_spectrum(ctx, gs, rng, thorough)),
+                  ("eig", lambda: probe_eig(ctx, gs, rng, thorough)),
+                  ("sphere", lambda: probe_sphere(ctx, gs, rng, thorough))]
+        for tag, fn in stages:
+            if only in (None, tag):
+                t0 = time.time()
+                fn()
+                C.log("[C02] stage %-8s %6.1fs  evaluations so far %d" % (tag, time.time() - t0, ctx.evaluations))
     finally:
         if drv:
             drv.close()
@@ -432,8 +436,9 @@ def report(ctx, stage, what, case, name, cfg, sig, kind):
 def probe_spectrum(ctx, gs, rng, thorough):
     """sign of the radial spectrum in the dimension of the model.  compact models: own quadrature of the d-dimensional
     radial transform of m.correlation (error ~1e-12 S(0), threshold -1e-7 S(0)); every class: m.spectral_density on a
-    log grid (analytic formulas must be >= 0 exactly; the default Hankel transform has its own noise of ~1e-6 S(0),
-    threshold -1e-4 S(0))"""
+    log grid (analytic formulas must be >= 0 exactly on k in [0, 1e3/len]; the default Hankel transform is only used for
+    k <= 30/len, where its own noise is ~1e-6..1e-5 S(0) (measured; it grows to 1e-3 S(0) beyond k = 100/len), threshold
+    -1e-3 S(0), and not for parameter sets the class itself warns about as unstable)"""
     kgrid = np.concatenate([[0.0], 10.0 ** np.linspace(-3, 3, 49 if thorough else 25)])
     kq = np.linspace(0.5, 60.0, 120 if thorough else 40)
     for name in NAMES:
@@ -444,19 +449,22 @@ def probe_spectrum(ctx, gs, rng, thorough):
             d = m0.dim
             for sig, p in param_sets(m0, rng, name, 12 if thorough else 5):
                 L = float(rng.choice([0.4, 1.0, 6.0]))
-                m, _, _ = make(gs, name, len_scale=L, **cfg, **p)
+                m, _, unstable = make(gs, name, len_scale=L, **cfg, **p)
                 ell = float(m.len_rescaled)
-                s = np.asarray(m.spectral_density(kgrid / ell), dtype=float)
+                if name not in ANALYTIC and unstable:
+                    continue                      # the class itself warns "count with unstable results": Hankel transform meaningless
+                kg = kgrid if name in ANALYTIC else kgrid[kgrid <= 30.0]
+                s = np.asarray(m.spectral_density(kg / ell), dtype=float)
                 ctx.count(("spectrum", name, cfg_tag(cfg), sig), hist=dict(stage="probe-spectrum", cls=name, dim=cfg_tag(cfg)))
                 s0 = abs(s[0]) if np.isfinite(s[0]) and s[0] != 0 else np.nanmax(np.abs(s))
-                tol = 0.0 if name in ANALYTIC else 1e-4 * s0
+                tol = 0.0 if name in ANALYTIC else 1e-3 * s0
                 if name in ("TPLGaussian", "TPLExponential") and p.get("len_low", 0.0) != 0.0:
                     tol = 1e-9 * s0                    # difference of two spectra: cancellation
                 if not np.all(np.isfinite(s)) or np.min(s) < -tol:
                     i = int(np.argmin(np.where(np.isfinite(s), s, -np.inf)))
                     report(ctx, "probe: sign of spectral_density", "%s(%s, %s, len_scale=%r).spectral_density(%r) = %r (S(0) = %r)" % (
-                        name, cfg, p, L, float(kgrid[i] / ell), float(s[i]), float(s[0])),
-                        dict(probe="spectrum", cls=name, cfg=cfg, params=p, len_scale=L, k=C.fhex(kgrid[i] / ell), value=repr(float(s[i]))),
+                        name, cfg, p, L, float(kg[i] / ell), float(s[i]), float(s[0])),
+                        dict(probe="spectrum", cls=name, cfg=cfg, params=p, len_scale=L, k=C.fhex(kg[i] / ell), value=repr(float(s[i]))),
                         name, cfg, sig, "spectral_density<0")
                 if name in COMPACT:
                     s0q, _ = radial_spectrum_quad(lambda r: m.correlation(r), d, 1e-3 / ell, rng_hi=ell)
